@@ -482,6 +482,11 @@ func serverForwardResponses(
 				return fmt.Errorf("failed to flush HTTP response: %w", err)
 			}
 
+			// If the response is not final (1xx informational), the final response is yet to come.
+			if resp.StatusCode < http.StatusOK {
+				continue
+			}
+
 			// Stop forwarding if either the client or server indicates that the connection should be closed.
 			//
 			// RFC 9112 section 9.6 says:
@@ -493,10 +498,7 @@ func serverForwardResponses(
 				return errPayloadAfterFinalResponse
 			}
 
-			// If the response is final (not 1xx informational), we are done.
-			if resp.StatusCode >= http.StatusOK {
-				break
-			}
+			break
 		}
 	}
 }
